@@ -4,9 +4,9 @@ Model of the MessageSet wire format code (engine `mset`, property C47), written 
 
   internal/encoding/messageset/messageset.go   SizeField, Unmarshal, ConsumeFieldValue,
                                                AppendFieldStart/End, SizeUnknown, AppendUnknown
-  proto/messageset.go                          reflection path (wantLen = false)
-  internal/impl/codec_messageset.go            fast path (wantLen = true), incl. the pass-through of
-                                               unexpanded lazy extensions
+  proto/messageset.go                          reflection path  } both call Unmarshal(b, true, fn) since
+  internal/impl/codec_messageset.go            fast path        } ff1f95d; incl. the fast path's
+                                               pass-through of unexpanded lazy extensions (2afca19)
 
 over the wire primitives of `Spec` (Model/WireSpec.lean: `decTag`, `decVarint`, `decBytes`,
 `consumeFieldValue`, `encVarint`, `encTag` — tied to encoding/protowire by C01/C02).
@@ -25,7 +25,7 @@ inductive Err where
   | wire (e : WErr)   -- protowire.ParseError(n)
   | typeId            -- "invalid type_id in message set"
   | unknownData       -- "invalid data in message set unknown fields"
-  | panic             -- a Go slice expression out of range   (unreachable: `C47.consumeItem_total`)
+  | panic             -- a Go slice expression out of range   (unreachable: `C47.consumeItem_no_panic`)
   | fuel              -- loop budget of the model exhausted    (unreachable: `C47.consumeItem_total`)
   deriving DecidableEq, Repr
 
@@ -166,35 +166,37 @@ def mergeItem : List (Nat × Bytes) → Nat → Bytes → List (Nat × Bytes)
   | [], t, p => [(t, p)]
   | (t', p') :: r, t, p => if t' = t then (t', p' ++ p) :: r else (t', p') :: mergeItem r t p
 
-/-- the callback of `unmarshalMessageSet`.
-reflection path (`wantLen = false`, proto/messageset.go): unknown ⇒ `AppendTag(num, BytesType)`,
-`AppendBytes(v)`.  fast path (`wantLen = true`, impl/codec_messageset.go): `v` carries its length
-prefix; unknown ⇒ `AppendTag`, `append(v...)`; known ⇒ the extension coder `ConsumeBytes(v)`. -/
-def applyItem (known : Nat → Bool) (wantLen : Bool) (s : Content) (t : Nat) (v : Bytes) :
+/-- the callback of `unmarshalMessageSet`.  Both paths call `messageset.Unmarshal(b, true, fn)`: `v`
+carries its length prefix.  An unresolved item is kept byte for byte: `AppendTag(num, BytesType)`,
+`append(v...)`.  A resolved one is decoded from the payload `ConsumeBytes(v)`: the fast path
+(`fast = true`, impl/codec_messageset.go) through the extension coder, which fails when
+`ConsumeBytes` does; the reflection path (`fast = false`, proto/messageset.go) with
+`mv, _ := protowire.ConsumeBytes(v)`, i.e. with the empty payload when it fails (it never does:
+`C47.paths_agree`). -/
+def applyItem (known : Nat → Bool) (fast : Bool) (s : Content) (t : Nat) (v : Bytes) :
     Except Err Content :=
   if known t then
-    if wantLen then
-      match decBytes v with
-      | .error e => .error (.wire e)
-      | .ok (p, _) => .ok { s with items := mergeItem s.items t p }
-    else .ok { s with items := mergeItem s.items t v }
+    match decBytes v with
+    | .error e =>
+      if fast then .error (.wire e) else .ok { s with items := mergeItem s.items t [] }
+    | .ok (p, _) => .ok { s with items := mergeItem s.items t p }
   else
-    .ok { s with unknown := s.unknown ++ tag t wBytes ++ (if wantLen then v else encBytes v) }
+    .ok { s with unknown := s.unknown ++ tag t wBytes ++ v }
 
-def applyItems (known : Nat → Bool) (wantLen : Bool) :
+def applyItems (known : Nat → Bool) (fast : Bool) :
     Content → List (Nat × Bytes) → Except Err Content
   | s, [] => .ok s
   | s, (t, v) :: r =>
-    match applyItem known wantLen s t v with
+    match applyItem known fast s t v with
     | .error e => .error e
-    | .ok s' => applyItems known wantLen s' r
+    | .ok s' => applyItems known fast s' r
 
-/-- `proto.Unmarshal` of a MessageSet into an empty message: `wantLen = true` is the fast path,
-`false` the reflection path -/
-def decodeSet (known : Nat → Bool) (wantLen : Bool) (b : Bytes) : Except Err Content :=
-  match unmarshalItems wantLen b with
+/-- `proto.Unmarshal` of a MessageSet into an empty message: `fast = true` is the table-driven
+path, `false` the reflection path (also dynamicpb) -/
+def decodeSet (known : Nat → Bool) (fast : Bool) (b : Bytes) : Except Err Content :=
+  match unmarshalItems true b with
   | .error e => .error e
-  | .ok cs => applyItems known wantLen Content.empty cs
+  | .ok cs => applyItems known fast Content.empty cs
 
 /-! ### `messageset.AppendUnknown` / `SizeUnknown` -/
 
@@ -271,16 +273,42 @@ def sizeSet (s : Content) : Nat := sizeItems s.items + sizeUnknown s.unknown
 /-! ### the fast path's pass-through of unexpanded lazy extensions
 
 `unmarshalExtension` keeps a validated extension as raw records `AppendTag(num, BytesType) ++ v`
-(`appendLazyBytes`, one record per occurrence); `marshalMessageSetField` re-emits
-`lb[xi.tagsize:]` behind the message tag and `sizeMessageSet` counts
-`SizeTag(FieldMessage) + len(lb) - xi.tagsize`. -/
+(`appendLazyBytes`, one record per occurrence in the input); `marshalMessageSetField` re-emits
+every record as its own message field of ONE item (`for len(lb) > 0 { _, n := ConsumeBytes(lb[xi.tagsize:]) … }`)
+and `sizeMessageSet` counts `SizeTag(FieldMessage) + n` per record. -/
 
 def lazyRecord (t : Nat) (v : Bytes) : Bytes := tag t wBytes ++ v
 
-def encodeLazyItem (t : Nat) (lb : Bytes) : Bytes :=
-  appendFieldEnd (appendFieldStart [] t ++ tag fieldMessage wBytes ++ lb.drop (sizeTag t))
+/-- the loop over the records of the lazy buffer; `ts` = `xi.tagsize`.  The slice expressions
+`lb[ts:]`, `lb[ts:ts+n]` panic when the buffer is shorter than a tag or `ConsumeBytes` fails. -/
+def lazyFieldsLoop (ts : Nat) : Nat → Bytes → Bytes → Except Err Bytes
+  | 0, _, _ => .error .fuel
+  | fuel + 1, b, lb =>
+    if lb.length = 0 then .ok b
+    else if lb.length < ts then .error .panic
+    else
+      let l1 := lb.drop ts
+      match decBytes l1 with
+      | .error _ => .error .panic
+      | .ok (_, n) => lazyFieldsLoop ts fuel (b ++ tag fieldMessage wBytes ++ l1.take n) (l1.drop n)
 
-def sizeLazyItem (t : Nat) (lb : Bytes) : Nat :=
-  sizeField t + (sizeTag fieldMessage + lb.length - sizeTag t)
+def encodeLazyItem (t : Nat) (lb : Bytes) : Except Err Bytes :=
+  match lazyFieldsLoop (sizeTag t) (lb.length + 1) (appendFieldStart [] t) lb with
+  | .error e => .error e
+  | .ok b => .ok (appendFieldEnd b)
+
+def lazySizeLoop (ts : Nat) : Nat → Nat → Bytes → Except Err Nat
+  | 0, _, _ => .error .fuel
+  | fuel + 1, size, lb =>
+    if lb.length = 0 then .ok size
+    else if lb.length < ts then .error .panic
+    else
+      let l1 := lb.drop ts
+      match decBytes l1 with
+      | .error _ => .error .panic
+      | .ok (_, n) => lazySizeLoop ts fuel (size + (sizeTag fieldMessage + n)) (l1.drop n)
+
+def sizeLazyItem (t : Nat) (lb : Bytes) : Except Err Nat :=
+  lazySizeLoop (sizeTag t) (lb.length + 1) (sizeField t) lb
 
 end MSet
